@@ -636,6 +636,26 @@ func (c *c13) trade(p *c13Pool, sell bool) {
 			}
 		}
 	}
+	if hasBook && !sell && r.Intn(6) == 0 {
+		// buy exactly what the pool holds plus what the first k orders offer (or one unit around it): after the orders are
+		// filled the rest equals the whole reserve, which must be refused (lead: added after seed C13-m4)
+		var os []*swap.Limit
+		k := 1 + r.Intn(3)
+		guarded(func() { os = pair.OrdersSell(uint32(k)) })
+		sum := bcopy(rout)
+		n := 0
+		for _, o := range os {
+			if o == nil {
+				break
+			}
+			sum.Add(sum, o.WantSell)
+			n++
+		}
+		if n > 0 {
+			kind = "reserve-plus-orders"
+			amt = sum.Add(sum, big.NewInt(int64(r.Intn(3)-1)))
+		}
+	}
 	if amt.Cmp(bigMaxCoin) > 0 {
 		amt.Set(bigMaxCoin)
 	}
